@@ -26,7 +26,7 @@ ASSUMPTIONS = [
     "gc is disabled while a twin runs and collected explicitly, so collection order is the same in both twins",
 ]
 REAL_VS_STUB = {"real": ["stackscope", "CPython refcounting / gc of each leg", "ctypes frame reads"], "stub": ["generated programs", "shadow managers (unused as oracle here)", "driver"]}
-RARE_PROBES = ["sentinels_on_stack", "observed_probes", "observed_suspensions", "equal_pairs"]
+RARE_PROBES = ["retention_compared", "sentinels_on_stack", "observed_probes", "observed_suspensions", "equal_pairs"]
 LEGS = []
 for py, nq in (("3.12", 1600), ("3.11", 800), ("3.10", 800), ("3.9", 800)):
     tag = py.replace(".", "")
@@ -213,7 +213,7 @@ def one_pass(ctx, tape, observed, oseed):
     sched = drv.schedule
     # end every generator-like of the world for good, the same way in both twins: what is
     # left suspended would be finalised by the garbage collector in an order of its own
-    driver.cleanup(b, drv.root)
+    clean = driver.cleanup(b, drv.root)
     del b, W, drv
     if bat is not None:
         bat.W = None
@@ -222,6 +222,10 @@ def one_pass(ctx, tape, observed, oseed):
     alive = sum(1 for r in refs if r() is not None)
     # frames cannot be weakly referenced: count the survivors of this program's code
     alive += sum(1 for o in gc.get_objects() if isinstance(o, types.FrameType) and o.f_code.co_filename == filename)
+    if not clean:
+        # some generator-like of the world could not be finished for good: what survives then is up
+        # to the garbage collector's finalisation order, not to the code under test
+        alive = None
     return events, alive, bat, text, sched
 
 
@@ -257,7 +261,16 @@ def run(ctx):
             % (n, ev_plain[n : n + 3], ev_obs[n : n + 3]),
             {"at": n},
         )
-    if alive_obs != alive_plain:
+    if alive_obs is None or alive_plain is None:
+        ctx.stat("retention_not_compared_unclean_world")
+    elif alive_plain != 0:
+        # survivors in the unobserved twin as well: the world itself keeps something alive (a
+        # generator-like in limbo after a finaliser threw GeneratorExit into it); the count then
+        # depends on the collector's order, so it says nothing about the observer
+        ctx.stat("retention_not_compared_unclean_world")
+    else:
+        ctx.stat("retention_compared")
+    if alive_obs is not None and alive_plain == 0 and alive_obs != alive_plain:
         raise Violation(
             "c06_objects_retained",
             "%d managers/generators/frames still alive after the observed twin, %d after the unobserved one" % (alive_obs, alive_plain),
